@@ -1,6 +1,6 @@
 import Secp.Proofs.ScalarEnc
 import Secp.Hand.Group
-import Secp.Proofs.BytesTies
+import Secp.Proofs.BytesTiesN
 import Secp.Proofs.ScalarCodecTies
 /-!
 # C07 — scalar encodings are canonical 32-byte big-endian; decoding rejects all else
